@@ -81,7 +81,7 @@ func (r *Reader) Close() {
 // readBox reads an ISOBMFF box
 func (r *Reader) readBox() (b box, err error) {
 	// Read box size and box type
-	buf, err := r.peek(16)
+	buf, err := r.peek(8)
 	if err != nil {
 		return b, errors.Wrap(ErrBufLength, "readBox")
 	}
@@ -94,6 +94,9 @@ func (r *Reader) readBox() (b box, err error) {
 	switch b.size {
 	case 1:
 		// 1 means it's actually a 64-bit size, after the type.
+		if buf, err = r.peek(16); err != nil {
+			return b, errors.Wrap(ErrBufLength, "readBox")
+		}
 		b.size = int64(bmffEndian.Uint64(buf[8:16]))
 		if b.size < 0 {
 			// Go uses int64 for sizes typically, but BMFF uses uint64.
